@@ -112,7 +112,7 @@ func (c InterCmd) run(tx sqlx.Tx) ([]SetItem, error) {
 	args := append(
 		keyArgs,                // keys
 		time.Now().UnixMilli(), // now
-		len(c.keys),            // nkeys
+		countDistinct(c.keys),  // nkeys
 	)
 
 	// Execute the query.
@@ -166,7 +166,7 @@ func (c InterCmd) store(tx sqlx.Tx) (int, error) {
 		query = strings.Replace(query, sqlx.Sum, c.aggregate, 2)
 	}
 	query, keyArgs := sqlx.ExpandIn(query, ":keys", c.keys)
-	args := slices.Concat([]any{destID}, keyArgs, []any{now, len(c.keys)})
+	args := slices.Concat([]any{destID}, keyArgs, []any{now, countDistinct(c.keys)})
 	res, err := tx.Exec(query, args...)
 	if err != nil {
 		return 0, err
@@ -175,4 +175,14 @@ func (c InterCmd) store(tx sqlx.Tx) (int, error) {
 	// Return the number of elements in the resulting set.
 	n, _ := res.RowsAffected()
 	return int(n), nil
+}
+
+// countDistinct returns the number of distinct keys. A key repeated in the
+// argument list names one set, which the SQL `key in (...)` matches once.
+func countDistinct(keys []string) int {
+	seen := make(map[string]struct{}, len(keys))
+	for _, key := range keys {
+		seen[key] = struct{}{}
+	}
+	return len(seen)
 }
